@@ -50,15 +50,26 @@ def _is_owning_expr(e, f):
     return False
 
 
+def _owning(e, f):
+    """constructor call, copy()/self.copy()/deepcopy() -- looking through conditional expressions"""
+    if isinstance(e, ast.IfExp):
+        return _owning(e.body, f) and _owning(e.orelse, f)
+    return _is_owning_expr(e, f)
+
+
 def sites(model, rels):
-    """Yield (f, node, var, what, owned, why) for every configuration of a compiled object in
-    the Compiler classes of the given modules."""
+    """Yield (f, node, var, what, owned, why) for every configuration of a compiled object in the Compiler classes of the given
+    modules.  Ownership is decided on the path summaries (sa/sem.py): on every path that reaches the configuration, the object
+    configured is the result of a constructor or of copy()/self.copy() -- whatever the nesting of the tests that led to the copy
+    (`if 'optional' in m or 'default' in m: x = self.copy(x)` owns x under `'optional' in m` as well)."""
+    from . import sem
     for rel in rels:
         m = model.mod(rel)
         for c in m.classes.values():
             if c.name != 'Compiler':
                 continue
             for f in c.methods.values():
+                cand = []
                 for n in walk_no_nested(f):
                     var = None
                     what = None
@@ -72,25 +83,50 @@ def sites(model, rels):
                                     and t.attr not in METADATA_ATTRS:
                                 var = t.value.id
                                 what = '%s.%s = ...' % (var, t.attr)
-                    if var is None:
-                        continue
-                    st = Model.enclosing_stmt(n)
-                    dom = _last_dominating_binding(var, f, st)
-                    if dom is not None:
-                        owned = _is_owning_expr(dom.value, f)
-                        why = 'reaching binding: %s' % norm_stmt(dom)
-                        # bindings after dom but before the site inside branches
-                    else:
-                        binds = [a for a in walk_no_nested(f) if isinstance(a, ast.Assign)
-                                 and any(isinstance(t, ast.Name) and t.id == var for t in a.targets)]
-                        if var in flow.param_names(f):
-                            owned = False
-                            why = '%s is a parameter (caller-owned object)' % var
-                        elif binds:
-                            owned = all(_is_owning_expr(a.value, f) for a in binds)
-                            why = 'bindings: ' + '; '.join(norm_stmt(a)[:60] for a in binds[:3])
+                    if var is not None:
+                        cand.append((n, var, what))
+                if not cand:
+                    continue
+                ps = sem.paths(f)
+                allp = sem.with_loop_bodies(ps) if ps is not None else None
+                for n, var, what in cand:
+                    decided = False
+                    if allp is not None:
+                        recvs = []
+                        for p in allp:
+                            for ev in p.events:
+                                if isinstance(n, ast.Call) and ev[0] == 'call' and ev[2] is n and isinstance(ev[3].func, ast.Attribute):
+                                    recvs.append(ev[3].func.value)
+                                elif isinstance(n, ast.Assign) and ev[0] == 'store' and ev[2] is n and len(ev) > 5 and isinstance(ev[5], ast.Attribute):
+                                    recvs.append(ev[5].value)
+                        if recvs:
+                            decided = True
+                            bad = [r for r in recvs if not _owning(r, f)]
+                            owned = not bad
+                            if owned:
+                                why = 'on all %d paths the object is %s' % (len(recvs), sem.ctext(recvs[0])[:60])
+                            else:
+                                b = bad[0]
+                                if isinstance(b, ast.Name) and b.id.split('@')[0] in flow.param_names(f):
+                                    why = '%s is a parameter (caller-owned object)' % b.id
+                                else:
+                                    why = 'on a path that reaches it the object is %s, neither constructed nor copied here' % sem.ctext(b)[:80]
+                    if not decided:
+                        st = Model.enclosing_stmt(n)
+                        dom = _last_dominating_binding(var, f, st)
+                        if dom is not None:
+                            owned = _is_owning_expr(dom.value, f)
+                            why = 'reaching binding: %s' % norm_stmt(dom)
                         else:
-                            # loop variable etc.
-                            owned = False
-                            why = 'no owning binding of %s in this method' % var
+                            binds = [a for a in walk_no_nested(f) if isinstance(a, ast.Assign)
+                                     and any(isinstance(t, ast.Name) and t.id == var for t in a.targets)]
+                            if var in flow.param_names(f):
+                                owned = False
+                                why = '%s is a parameter (caller-owned object)' % var
+                            elif binds:
+                                owned = all(_is_owning_expr(a.value, f) for a in binds)
+                                why = 'bindings: ' + '; '.join(norm_stmt(a)[:60] for a in binds[:3])
+                            else:
+                                owned = False
+                                why = 'no owning binding of %s in this method' % var
                     yield f, n, var, what, owned, why
